@@ -264,6 +264,8 @@ def r16_8(ctx):
 
 
 def run(ctx):
+    ctx.rule("R16.13", "the duplicate test keys on (ns, local) in test and insert alike; bind_qname writes only name.ns, from find_uri(name.prefix)")
+    ctx.guard("R16.13", "keys-and-binding", lambda: r16_13(ctx))
     ctx.rule("R16.12", "no attribute value without a name: a value collected with no attribute started never reaches the next tag's (xmlns) attribute")
     from . import tokrules as _tr12
     ctx.guard("R16.12", "value-without-name", lambda: _tr12.no_value_without_name(ctx, "R16.12", "xml"))
@@ -354,3 +356,36 @@ def r16_11(ctx):
             if not vals or any(vals):
                 bad = bad or 'a binding is stored for an xmlns:-prefixed declaration without having excluded the local name "%s": xmlns:%s="urn:other" re-binds a fixed prefix' % (nm, nm)
     ctx.ob("R16.11", "fixed-prefixes-never-stored", bad is None and n >= 2, bad or "%d storing paths for xmlns:-prefixed declarations, each after excluding xml and xmlns" % n, "xml5ever tree_builder NamespaceMap::insert_ns")
+
+
+def r16_13(ctx):
+    """(a) the duplicate test of bound attributes keys on the expanded name (name.ns, name.local), with the SAME key in the
+    membership test and in the insert; (b) bind_qname writes nothing but name.ns, and what it writes is find_uri(name.prefix)'s
+    answer (the empty namespace for an un-binding) - prefix and local name are kept as read"""
+    key, pcs = nfq.cells(ctx, TB, "::check_duplicate_attr")
+    bad = None
+    n = 0
+    for pc in nfq.feasible(pcs):
+        n += 1
+        keys = re.findall(r"p1\.(?:contains|insert|get|replace)\(\(?(\(.*?\))\)?\)", " ".join(list(pc["guards"]) + nfq.texts(pc) + [str(pc["ret"])]))
+        for k in keys:
+            if k.replace(" ", "") != "(p2.ns,p2.local)":
+                bad = "the set of attributes already present is keyed with %s, not with the expanded name (ns, local)" % k
+        if not keys:
+            bad = bad or "no membership test / insert on the set of present attributes"
+    ctx.ob("R16.13", "duplicate-key-is-the-expanded-name", bad is None and n >= 2, bad or "contains / insert both use (name.ns, name.local)", "xml5ever tree_builder check_duplicate_attr")
+    key, pcs = nfq.cells(ctx, TB, "::bind_qname")
+    bad = None
+    n = 0
+    for pc in nfq.feasible(pcs):
+        n += 1
+        assigns = [(a, [str(x) for x in args]) for a, args in pc["actions"] if a.startswith("assign ") or a.startswith("set ") or a.startswith("replace ") or a.startswith("take ")]
+        for a, args in assigns:
+            if a != "assign p1.ns":
+                bad = bad or "bind_qname writes %s: binding a name must only fill in its namespace" % a
+            elif not (args and (args[0].startswith("self.find_uri(p1.prefix)") or args[0].startswith("ATOM_NAMESPACE_"))):
+                bad = bad or "the namespace written is %s, not the answer of find_uri(name.prefix)" % (args[:1],)
+        ok_g = pc["guards"].get("self.find_uri(p1.prefix) matches Ok(_)")
+        if ok_g is True and not assigns:
+            bad = bad or "a prefix that is bound leaves the name without its namespace"
+    ctx.ob("R16.13", "bind_qname-writes-only-the-namespace", bad is None and n >= 3, bad or "ns := find_uri(prefix) (or the empty namespace); prefix and local untouched", "xml5ever tree_builder bind_qname")
